@@ -6,13 +6,20 @@ import QV.Shared.SeqGateWire
 namespace QV.C20
 open QV QV.SeqGateWire
 
-/-- the model's answer in the shape of one entry point's output, from the already computed expansion `e`
-and retained names `k` -/
-def modelOut (e : Outcome (List (Instr String))) (k : List String) : Option PlainOut :=
-  match e with
-  | .ok b => some (.ok b k true)
-  | .err x => some (.err x)
-  | .outOfFuel => none
+/-- same names, order aside (the statement says which definitions are kept, not where) -/
+def sameNames (a b : List String) : Bool :=
+  a.length == b.length && a.all b.contains && b.all a.contains
+
+/-- Does one entry point's output `o` agree with the model (`e` = the model's expansion, `k` = the retained
+names, `kinds` = every misuse kind applicable somewhere the expansion can reach)? Successes are compared
+exactly; for failures the statement only says that misuse "is reported as an error", so any applicable kind
+counts as agreeing (the model's own choice is one of them, `C20_model_error_applicable`), payloads and
+message text are not compared. -/
+def agreesWith (e : Outcome (List (Instr String))) (k : List String) (kinds : List Kind) (o : PlainOut) : Bool :=
+  match e, o with
+  | .ok b, .ok body kept intact => decide (b = body) && sameNames kept k && intact
+  | .err _, .err x => kinds.contains x.kind
+  | _, _ => false
 
 /-- the model's prediction for "expanding the result again with the same filter changes nothing" -/
 def modelAgain (p : Program String) (sel : String → Bool) (e : Outcome (List (Instr String))) (k : List String) : Bool :=
@@ -25,19 +32,22 @@ def modelAgain (p : Program String) (sel : String → Bool) (e : Outcome (List (
   | _ => true
 
 /-- The specification evaluated on ONE entry point's output `o` (theorems in Props.lean tie each conjunct to
-the declarative statement; `e = expand p.defs sel p.body`, `k = (keptDefs p.defs sel).map name`, computed once):
+the declarative statement; `e = expand p.defs sel p.body`, `k = (keptDefs p.defs sel).map name`,
+`kinds = misuseKinds p.defs sel p.body`, computed once):
 * returned `Ok`: the body is the one `expand` computes (`C20_expand_ok_iff_pure`) **and**, independently of
   the model, the verifier `verifyPure` accepts it as the stack-free expansion (`C20_verifyPure_iff`), the
-  retained definitions are exactly those `keptDefs` selects (`C20_kept_iff`), in order, and untouched;
-* returned `Err x`: `expand` reports `x` (`C20_expand_err_iff`). -/
+  retained definitions are exactly those `keptDefs` selects (`C20_kept_iff`; as a set), and untouched;
+* returned `Err x`: the kind of `x` is one of the misuse kinds applicable somewhere the expansion can reach
+  (`C20_misuseKinds_iff`: `k ∈ misuseKinds ↔ MisuseAt`; `C20_error_iff_misuse`: that set is non-empty exactly
+  when the expansion must fail). Which applicable error, its payload and its text are not demanded. -/
 def specCheck (p : Program String) (sel : String → Bool) (e : Outcome (List (Instr String))) (k : List String)
-    (o : PlainOut) : Bool :=
+    (kinds : List Kind) (o : PlainOut) : Bool :=
   match o with
   | .ok body kept intact =>
     decide (e = .ok body) &&
       decide (verifyPure p.defs sel (p.defs.map (·.name)) p.body body = some []) &&
-      kept == k && intact
-  | .err x => decide (e = .err x)
+      sameNames kept k && intact
+  | .err x => kinds.contains x.kind
 
 /-- deepest nesting of expansions reached (for the distribution tags only) -/
 partial def nestDepth (defs : List (Def String)) (sel : String → Bool) (stack : List String)
@@ -66,10 +76,12 @@ def handle (inp out : Sexp) : CaseResult :=
       let o := obs.plain
       let e := expand p.defs sel p.body
       let kept := (keptDefs p.defs sel).map (·.name)
-      let m := modelOut e kept
+      let kinds := match e with
+        | .ok _ => []          -- `C20_error_iff_misuse`: no applicable misuse when the expansion succeeds
+        | _ => misuseKinds p.defs sel p.body
       let again := modelAgain p sel e kept
-      let specPlain := specCheck p sel e kept obs.plain
-      let specMapped := if obs.mapped == obs.plain then specPlain else specCheck p sel e kept obs.mapped
+      let specPlain := specCheck p sel e kept kinds obs.plain
+      let specMapped := if obs.mapped == obs.plain then specPlain else specCheck p sel e kept kinds obs.mapped
       let seqs := seqNames p.defs
       let selectedSeqs := seqs.filter sel
       let keptSelected := selectedSeqs.filter fun n => kept.contains n
@@ -77,7 +89,10 @@ def handle (inp out : Sexp) : CaseResult :=
       let tags :=
         (match o with
           | .ok .. => ["ok"]
-          | .err e => ["err", "err-" ++ errKind e]) ++
+          | .err x => ["err", "err-" ++ errKind x, s!"applicable{min kinds.eraseDups.length 4}"] ++
+              (match e with
+                | .err y => if y.kind == x.kind then [] else ["err-kind-differs-from-model"]
+                | _ => [])) ++
         [s!"defs{if p.defs.length ≤ 5 then p.defs.length else if p.defs.length ≤ 16 then 16 else if p.defs.length ≤ 32 then 32 else 64}",
          s!"body{if p.body.length ≤ 8 then p.body.length else if p.body.length ≤ 32 then 32 else 128}",
          s!"seqdefs{min seqs.length 5}",
@@ -90,14 +105,14 @@ def handle (inp out : Sexp) : CaseResult :=
         (if p.body.any (fun i => match i with | .other _ => true | _ => false) then ["has-other-instr"] else []) ++
         (if inputHasExtras inp then ["extras"] else [])
       -- BOTH entry points must return what the model computes; the repeated-call flag must be the model's
-      let agree := m == some obs.plain && m == some obs.mapped && obs.again == again
+      let agree := agreesWith e kept kinds obs.plain && agreesWith e kept kinds obs.mapped && obs.again == again
       let specOk := specPlain && specMapped && obs.fullsame && obs.again && obs.errfmt
       { agree := agree,
         specOk := specOk,
         nontrivial := p.body.any (isSelectedInvocation p.defs sel),
         tags := tags,
         -- only built on failure (the structure is strict)
-        detail := if agree && specOk then "" else s!"model={repr m} again={again} impl={out}" }
+        detail := if agree && specOk then "" else s!"model={repr e} kept={kept} kinds={repr kinds} again={again} impl={out}" }
 
 end QV.C20
 
